@@ -106,13 +106,14 @@ type version struct {
 }
 
 type harness struct {
-	s    *simrt.Sim
-	ri   *hkit.RunInfo
-	prop string
-	g    *simrt.Stream
-	db   *db19.Database
-	sm   *schemaModel
-	sch  map[string]*schema.Schema
+	stalls bool // this run injects client stalls
+	s      *simrt.Sim
+	ri     *hkit.RunInfo
+	prop   string
+	g      *simrt.Stream
+	db     *db19.Database
+	sm     *schemaModel
+	sch    map[string]*schema.Schema
 
 	versions  []version
 	verOf     map[*db19.DbState]int
@@ -176,6 +177,15 @@ type contents struct {
 func (h *harness) readContents() *contents {
 	rt := h.db.NewReadTran()
 	c := &contents{primary: dbModel{}}
+	// every invariant is evaluated; of the broken ones the first that belongs to the property
+	// being checked is reported (a duplicate unique value also upsets the index comparison,
+	// a wrong cascade also upsets the counts, ...)
+	type finding struct{ oracle, sig, msg string }
+	var found []finding
+	add := func(oracle, sig, format string, args ...any) {
+		found = append(found, finding{oracle, sig, fmt.Sprintf(format, args...)})
+	}
+nextTable:
 	for _, tn := range h.sm.order {
 		t := h.sm.tables[tn]
 		ts := rt.GetSchema(tn)
@@ -194,14 +204,14 @@ func (h *harness) readContents() *contents {
 			for it.Next(rt); !it.Eof(); it.Next(rt) {
 				k, off := it.Cur()
 				if len(es) > 0 && k <= prev {
-					h.fail("C06/index-disagrees", "", "table %s index %d: keys not strictly increasing: %q after %q", tn, i, k, prev)
-					return nil
+					add("C06/index-disagrees", "", "table %s index %d: keys not strictly increasing: %q after %q", tn, i, k, prev)
+					continue nextTable
 				}
 				prev = k
 				es = append(es, ent{k, off})
 				if len(es) > 10000 {
-					h.fail("C06/index-disagrees", "", "table %s index %d: runaway iteration", tn, i)
-					return nil
+					add("C06/index-disagrees", "", "table %s index %d: runaway iteration", tn, i)
+					continue nextTable
 				}
 			}
 			byIdx = append(byIdx, es)
@@ -217,36 +227,14 @@ func (h *harness) readContents() *contents {
 			bytes += int64(rec.Len())
 			pk := h.sm.pk(tn, r)
 			if _, dup := tbl[pk]; dup {
-				h.fail("C07/duplicate-in-state", "", "table %s: two visible rows with key %q", tn, pk)
-				return nil
+				add("C07/duplicate-in-state", "", "table %s: two visible rows with key %q", tn, pk)
 			}
 			tbl[pk] = r
 		}
 		c.primary[tn] = tbl
-		// C06: every index has exactly the primary's rows, each under its own key
-		for i, es := range byIdx {
-			if len(es) != len(offs) {
-				h.fail("C06/index-disagrees", "", "table %s: index %d (%v) has %d entries, primary has %d rows", tn, i, ts.Indexes[i].Columns, len(es), len(offs))
-				return nil
-			}
-			for _, e := range es {
-				r, ok := offs[e.off]
-				if !ok {
-					h.fail("C06/index-disagrees", "", "table %s: index %d (%v) has an entry for offset %d which the primary index does not have", tn, i, ts.Indexes[i].Columns, e.off)
-					return nil
-				}
-				if want := ts.Indexes[i].Ixspec.Key(rt.GetRecord(e.off)); want != e.key {
-					h.fail("C06/index-disagrees", "", "table %s: index %d entry %q for row %v should be under key %q", tn, i, e.key, r, want)
-					return nil
-				}
-			}
-		}
-		// counts
-		if info.Nrows != len(offs) || info.Size != bytes {
-			h.fail("C03/counts", "", "table %s: reported nrows=%d size=%d, actual rows=%d bytes=%d", tn, info.Nrows, info.Size, len(offs), bytes)
-			return nil
-		}
-		// C07: keys and unique indexes (every index of the model schema)
+		// C07: keys and unique indexes (every index of the model schema), judged on the rows of the
+		// primary index - before the index comparison, which a duplicate unique value also upsets
+	uniq:
 		for _, ix := range t.Idx {
 			if ix.Mode == 'i' {
 				continue
@@ -258,19 +246,46 @@ func (h *harness) readContents() *contents {
 				}
 				f := fieldsOf(r, ix.Cols)
 				if o, dup := seen[f]; dup {
-					h.fail("C07/duplicate-in-state", "", "table %s: rows %v and %v share %s", tn, o, r, ixText(t, ix))
-					return nil
+					add("C07/duplicate-in-state", "", "table %s: rows %v and %v share %s", tn, o, r, ixText(t, ix))
+					break uniq
 				}
 				seen[f] = r
 			}
 			if ix.Mode == 'k' && len(ix.Cols) == 0 && len(tbl) > 1 {
-				h.fail("C07/duplicate-in-state", "", "table %s has key() but %d rows", tn, len(tbl))
-				return nil
+				add("C07/duplicate-in-state", "", "table %s has key() but %d rows", tn, len(tbl))
+				break uniq
 			}
+		}
+		// C06: every index has exactly the primary's rows, each under its own key
+	cmp:
+		for i, es := range byIdx {
+			if len(es) != len(offs) {
+				add("C06/index-disagrees", "", "table %s: index %d (%v) has %d entries, primary has %d rows", tn, i, ts.Indexes[i].Columns, len(es), len(offs))
+				break cmp
+			}
+			for _, e := range es {
+				r, ok := offs[e.off]
+				if !ok {
+					add("C06/index-disagrees", "", "table %s: index %d (%v) has an entry for offset %d which the primary index does not have", tn, i, ts.Indexes[i].Columns, e.off)
+					break cmp
+				}
+				if want := ts.Indexes[i].Ixspec.Key(rt.GetRecord(e.off)); want != e.key {
+					add("C06/index-disagrees", "", "table %s: index %d entry %q for row %v should be under key %q", tn, i, e.key, r, want)
+					break cmp
+				}
+			}
+		}
+		// counts
+		if info.Nrows != len(offs) || info.Size != bytes {
+			add("C03/counts", "", "table %s: reported nrows=%d size=%d, actual rows=%d bytes=%d", tn, info.Nrows, info.Size, len(offs), bytes)
 		}
 	}
 	// C08: no orphans
+orphans:
 	for _, tn := range h.sm.order {
+		if c.primary[tn] == nil {
+			continue
+		}
 		t := h.sm.tables[tn]
 		for _, ix := range t.Idx {
 			if ix.FkTable == "" {
@@ -289,11 +304,22 @@ func (h *harness) readContents() *contents {
 					}
 				}
 				if !found {
-					h.fail("C08/orphan-in-state", "C08/orphan-in-state/"+modeName(ix.FkMode), "table %s row %v refers to a missing row of %s (foreign key %s %s)", tn, r, ix.FkTable, ixText(t, ix), modeName(ix.FkMode))
-					return nil
+					add("C08/orphan-in-state", "C08/orphan-in-state/"+modeName(ix.FkMode), "table %s row %v refers to a missing row of %s (foreign key %s %s)", tn, r, ix.FkTable, ixText(t, ix), modeName(ix.FkMode))
+					break orphans
 				}
 			}
 		}
+	}
+	if len(found) > 0 {
+		pick := found[0]
+		for _, fd := range found {
+			if ps := oracleProps[fd.oracle]; ps == "*" || strings.Contains(ps, h.prop) {
+				pick = fd
+				break
+			}
+		}
+		h.fail(pick.oracle, pick.sig, "%s", pick.msg)
+		return nil
 	}
 	return c
 }
@@ -556,6 +582,7 @@ type op struct {
 }
 
 type tranPlan struct {
+	tag    string // motif this transaction belongs to (statistics)
 	ops    []op
 	abort  bool
 	think0 time.Duration
@@ -717,6 +744,12 @@ func (h *harness) runTran(client int, tp tranPlan) {
 		if t.dead || t.stop {
 			break
 		}
+		if tp.tag == "collide-output" && os.Getenv("VERIF_DEBUG_STALL") != "" {
+			d := h.s.Tape.Stream("dyn")
+			h.s.StallAfter(int64(1+d.Choose(14)), 5000)
+		} else {
+			h.maybeStall()
+		}
 		h.doOp(t, o, &last)
 	}
 	if s.Over() {
@@ -732,8 +765,12 @@ func (h *harness) runTran(client int, tp tranPlan) {
 	}
 	t.ops = append(t.ops, "complete")
 	t.status = tCompleting
+	h.maybeStall()
 	res := ut.Complete()
 	t.result = res
+	if tp.tag != "" {
+		h.ri.Count("motif."+tp.tag+":"+firstWords(orOK(res)), 1)
+	}
 	if res == "" {
 		t.status = tCommitted
 		_, t.endSeq = ut.VerifSeq()
@@ -756,6 +793,15 @@ func (h *harness) runTran(client int, tp tranPlan) {
 		if t.appliedAt >= 0 {
 			h.fail("C03/applied-but-failed", "", "T%d: Complete reported %q but its changes were published at version %d", t.id, res, t.appliedAt)
 		}
+	}
+}
+
+// maybeStall arms a stall fault for the calling client: somewhere inside its next operation
+// (between two of its messages to the checker, say) it is held up while the others go on.
+func (h *harness) maybeStall() {
+	if h.stalls && h.dynCoin(1, 3) {
+		d := h.s.Tape.Stream("dyn")
+		h.s.StallAfter(int64(1+d.Choose(30)), int64([]int{40, 200, 1000, 5000}[d.Choose(4)]))
 	}
 }
 
@@ -1053,6 +1099,7 @@ func Run(s *simrt.Sim, mode string, ri *hkit.RunInfo) {
 	// swarm knobs
 	db19.VerifReset()
 	db19.MaxAge = g.Range(3, 20)
+	h.stalls = g.Coin(1, 2) // swarm: half of the runs stall clients inside their operations
 	persist := time.Duration([]int{500, 1000, 2000, 5000, 20000, 60000}[g.Choose(6)]) * time.Millisecond
 	if mode == "C16" {
 		persist = time.Duration([]int{300, 500, 1000, 2000}[g.Choose(4)]) * time.Millisecond
@@ -1104,10 +1151,43 @@ func Run(s *simrt.Sim, mode string, ri *hkit.RunInfo) {
 		}
 		plans = append(plans, tps)
 	}
+	// collision motif: two clients start with transactions that give the same, so far
+	// unused, value of a unique index to two different rows at the same time - one by updating
+	// an existing row (keeping its key), the other by inserting a new row
+	collide := false
+	if tu, ok := h.sm.tables["t"]; ok && len(tu.Cols) == 5 && (mode == "C07" || mode == "ALL" || g.Coin(1, 8)) && g.Coin(1, 2) {
+		collide = true
+		x := val(fmt.Sprintf("ux%d", g.Choose(2)))
+		up := h.randRow(tu)
+		up[3] = x
+		out := h.randRow(tu)
+		out[3] = x
+		out[0] = val("kx")
+		updTran := tranPlan{tag: "collide-update", ops: []op{
+			{kind: opScan, table: "t", idx: tu.pkIdx(), whole: true, rev: g.Coin(1, 2), max: g.Range(1, 3), probe: h.randRow(tu), probe2: h.randRow(tu)},
+			{kind: opUpdate, table: "t", row: up}}}
+		outTran := tranPlan{tag: "collide-output", ops: []op{{kind: opOutput, table: "t", row: out}}}
+		for len(plans) < 2 {
+			plans = append(plans, nil)
+		}
+		a, b := 0, 1
+		if g.Coin(1, 2) {
+			a, b = 1, 0
+		}
+		plans[a] = append([]tranPlan{updTran}, plans[a]...)
+		plans[b] = append([]tranPlan{outTran}, plans[b]...)
+		h.ri.Count("motif.unique-collision", 1)
+	}
 	// initial rows
 	var initial []struct {
 		table string
 		r     row
+	}
+	if collide {
+		initial = append(initial, struct {
+			table string
+			r     row
+		}{"t", h.randRow(h.sm.tables["t"])})
 	}
 	for _, tn := range h.sm.order {
 		t := h.sm.tables[tn]
@@ -1411,4 +1491,11 @@ func (h *harness) finish() {
 		sample = sample[:12]
 	}
 	h.ri.Sample = map[string]any{"family": h.family, "policy": s.PolicyName(), "versions": nver, "commits": ncommit, "transactions": sample}
+}
+
+func orOK(s string) string {
+	if s == "" {
+		return "committed"
+	}
+	return s
 }
